@@ -152,3 +152,58 @@ def strings(alpha, n: int, first=None):
     if first is None:
         return itertools.product(alpha, repeat=n)
     return ((first,) + t for t in itertools.product(alpha, repeat=n - 1))
+
+
+_SWEEP = None
+
+
+def fcs_sweep_frames():
+    """Short valid frames such that every octet value 0..255 occurs as the last FCS octet, as the first FCS octet, and
+    as each HCS octet of some frame (value-dependent handling of check-sequence octets, e.g. an FCS ending in 7D or 7E,
+    would show on these).  Found by brute force over a 2-octet information field; [(label, frame), ...]."""
+    global _SWEEP
+    if _SWEEP is not None:
+        return _SWEEP
+    need = {(pos, v) for pos in ("fcs_hi", "fcs_lo", "hcs_hi", "hcs_lo") for v in range(256)}
+    out = []
+    for ctl in range(256):
+        if not need:
+            break
+        for a in range(256):
+            fr = RH.build_frame(0xA, 0, b"\x01", b"\x21", ctl, bytes((a, (a * 7 + ctl) & 0xFF)))
+            got = {("fcs_hi", fr[-1]), ("fcs_lo", fr[-2]), ("hcs_hi", fr[7]), ("hcs_lo", fr[6])}
+            hit = got & need
+            if hit:
+                need -= hit
+                out.append(("sweep:" + ",".join(f"{p}={v:02x}" for p, v in sorted(hit)), fr))
+    assert not need, sorted(need)[:5]
+    _SWEEP = out
+    return out
+
+
+def midsize_streams(stuffing: bool):
+    """Frames of 100-300 octets whose information field holds flag/escape octets at spread positions, followed by a short
+    frame: long enough for chunk-size thresholds (fast paths for 'large' chunks) to matter.  [(label, stream), ...]"""
+    pool = frame_pool()
+    out = []
+    for n, marks in ((120, (3, 40, 41, 90, 119)), (300, (0, 100, 170, 171, 299))):
+        info = bytearray((i * 13 + 5) % 0x7C + 1 for i in range(n))
+        for k, m in enumerate(marks):
+            info[m] = 0x7D if k % 2 == 0 else 0x7E
+        fr = RH.build_frame(0xA, 0, b"\x01", b"\x21", 0x13, bytes(info))
+        out.append((f"mid{n}+short", b"\x7e" + RH.wire(fr, stuffing) + b"\x7e" + RH.wire(pool["short"], stuffing) + b"\x7e"))
+    return out
+
+
+def escape_aligned_cuts(S: bytes, limit: int = 12):
+    """Pairs of cuts (i, j): i right after / before an escape or flag octet, j = i + d for chunk sizes d around powers of two."""
+    marks = [k for k, b in enumerate(S) if b in (0x7D, 0x7E)][:limit]
+    ds = (1, 2, 31, 32, 33, 63, 64, 65, 127, 128, 129, 255, 256, 257, 511, 512, 513, 1000, 1024)
+    seen = set()
+    for m in marks:
+        for i in (m, m + 1):
+            for d in ds:
+                j = i + d
+                if 0 < i < j < len(S) and (i, j) not in seen:
+                    seen.add((i, j))
+                    yield (i, j)
